@@ -48,9 +48,9 @@ type limits struct {
 	unitCap int
 }
 
-// nominalCap is used for decoders without any documented or wire maximum (KLV): retained memory
-// above it that still grows with the input is reported as unbounded growth. It is the largest bound
-// of any other decoder (M-JPEG, 2^24).
+// nominalCap is used for decoders without any documented or wire maximum (none at present; the KLV
+// decoder had none before its maxUnitSize was introduced): retained memory above it is reported as
+// unbounded growth. It is the largest bound of any other decoder (M-JPEG, 2^24).
 const nominalCap = 1 << 24
 
 var limitTable = map[string]limits{
@@ -65,7 +65,7 @@ var limitTable = map[string]limits{
 	"rtpmjpeg":       {maxFrame: 1<<24 + 1024, source: "24-bit fragment offset + JPEG headers written by the decoder", frameSlack: true},
 	"rtpmpeg1audio":  {maxFrame: 1729, source: "largest frame length a MPEG-1/2 layer II/III header can encode", perUnit: true},
 	"rtpac3":         {maxFrame: 3840, source: "largest frame size an AC-3 syncinfo can encode", perUnit: true},
-	"rtpklv":         {maxFrame: 0, source: "none documented"},
+	"rtpklv":         {maxFrame: 1 << 20, source: "rtpklv maxUnitSize"},
 	"rtplpcm":        {stateless: true, source: "the packet itself"},
 	"rtpsimpleaudio": {stateless: true, source: "the packet itself"},
 	"rtpmpegts":      {stateless: true, source: "the packet itself", perUnit: true},
